@@ -1004,16 +1004,12 @@ run_bfs(void) {
 	c_states = 1;
 	d_parent = 0;
 	d_nops = 0;
-	observe(0 == J_depth);
+	observe(0);
 	lo = 0;
 	hi = 1;
 	for (depth = 0; depth < J_depth && 0 == stop_cap; depth ++) {
-		/* The states of the final level get the reader dry-run instead of transitions.  Whether this
-		 * level is final is decided before it starts (depth bound, or the state target is already met
-		 * by what the previous levels produced), so the decision is deterministic. */
-		int final = (depth + 1 == J_depth);
 		for (s = lo; s < hi && 0 == stop_cap; s ++)
-			expand((uint32_t)s, final);
+			expand((uint32_t)s, 0);
 		if (0 == stop_cap)
 			completed = depth + 1;
 		printf("NOTE\tlevel_%d_states=%zu\n", depth + 1, st_n - hi);
@@ -1021,8 +1017,26 @@ run_bfs(void) {
 		hi = st_n;
 		if (lo == hi)
 			break;
-		if (st_n >= J_target && depth + 1 < J_depth)
-			J_depth = depth + 2;	/* one more level, and it is the final one */
+		if (st_n >= J_target)
+			break;	/* deterministic: depends on the state count only */
+	}
+	/* The states of the last level have no outgoing transitions: evaluate the full read of every
+	 * reader there (exactly the R_i(inf) transition, without a successor). */
+	for (s = lo; s < hi && lo != hi; s ++) {
+		int i;
+		size_t total;
+		uint64_t q;
+		decode(st_keys + s * KEYSZ, st_W[s]);
+		d_parent = (uint32_t)s;
+		d_nops = 0;
+		for (i = 0; i < J_nr; i ++) {
+			model_t keep = M;
+			g_viol = 0;
+			begin("r_buf_data_get");
+			c_trans ++;
+			(void)do_get(i, 2, &total, &q);
+			M = keep;
+		}
 	}
 	note("states", c_states);
 	note("transitions", c_trans);
